@@ -22,7 +22,58 @@ import (
 	"verif/lib/fsx"
 )
 
+// basePath is B in the alphabet's spelling (and in every world but those of
+// the variants name:<class>).
 const basePath = "/top/b"
+
+// The world of this process (a worker explores one system): where B and its
+// sibling outside B really are, and their names. Set by newSys.
+var (
+	wBase       = basePath
+	wSibling    = siblingPath
+	wSiblingSub = siblingSub
+	wBaseName   = defaultName
+	wSibName    = siblingName
+)
+
+// spell turns a string of the alphabet, written for B=/top/b and its sibling
+// /top/bb, into the string of this world: the segment "b" becomes the name of
+// the base directory, "bb" the sibling's.
+func spell(p string) string {
+	if wBaseName == defaultName {
+		return p
+	}
+
+	segs := strings.Split(p, "/")
+
+	for i, g := range segs {
+		switch g {
+		case defaultName:
+			segs[i] = wBaseName
+		case siblingName:
+			segs[i] = wSibName
+		}
+	}
+
+	return strings.Join(segs, "/")
+}
+
+// unspell gives a name of this world in the alphabet's spelling (signatures
+// are written in it; the field variant tells the world).
+func unspell(n string) string {
+	if wBaseName == defaultName {
+		return n
+	}
+
+	switch n {
+	case wBaseName:
+		return defaultName
+	case wSibName:
+		return siblingName
+	}
+
+	return n
+}
 
 // hooked is a base file system with the injected observers.
 type hooked interface {
@@ -40,8 +91,11 @@ type sys struct {
 	// wrapper is built with spelling (the base's cwd being spellCwd) -, or
 	// "out-links" - B holds the links of outLinks -, "ro" - wrapper and reference
 	// stand on a read-only view (rofs) of their file system -, "user" - the calls
-	// are made by a non-administrator user in the world of populateUser.
+	// are made by a non-administrator user in the world of populateUser,
+	// "name:<class>" - B has the name of nameWorlds and holds the nested copy of
+	// its own path.
 	variant  string
+	named    bool
 	spelling string
 	spellCwd string
 	outLinks bool
@@ -70,7 +124,8 @@ type sys struct {
 }
 
 // newSys builds the system of a name: "<fs>", "<fs>@<class of
-// basePathSpellings>", "<fs>+out-links", "<fs>+ro", "<fs>+user".
+// basePathSpellings>", "<fs>+out-links", "<fs>+ro", "<fs>+user",
+// "<fs>+name:<class of nameWorlds>".
 func newSys(name string, ops []opT, nAt []int) *sys {
 	s := &sys{fsName: name, ops: ops, nAt: nAt, spelling: basePath}
 
@@ -93,13 +148,27 @@ func newSys(name string, ops []opT, nAt []int) *sys {
 	if fsn, v, ok := strings.Cut(name, "+"); ok {
 		s.fsName, s.variant = fsn, v
 
-		switch v {
-		case "out-links":
+		switch {
+		case v == "out-links":
 			s.outLinks = true
-		case "ro":
+		case v == "ro":
 			s.roBase = true
-		case "user":
+		case v == "user":
 			s.user = true
+		case strings.HasPrefix(v, "name:"):
+			for _, w := range nameWorlds {
+				if "name:"+w.Class == v {
+					s.named = true
+					wBaseName, wSibName = w.Base, w.Sibling
+					wBase, wSibling = "/top/"+w.Base, "/top/"+w.Sibling
+					wSiblingSub = wSibling + "/k"
+					s.spelling = wBase
+				}
+			}
+
+			if !s.named {
+				panic("c10: unknown name world " + v)
+			}
 		default:
 			panic("c10: unknown variant " + v)
 		}
@@ -110,9 +179,9 @@ func newSys(name string, ops []opT, nAt []int) *sys {
 
 // NumOps is the number of operations that apply at the next level (a prefix of
 // the list, which is sorted by decreasing MaxLevel). Variants are explored for
-// the first call of a history; the base-path spellings also for the next
-// calls from the states in which the base's cwd has moved (to a cleanly
-// spelled directory).
+// the first call of a history; the base-path spellings and the names of the
+// base directory also for the next calls from the states in which the base's
+// cwd has moved (to a cleanly spelled directory).
 func (s *sys) NumOps() int {
 	l := s.depth + 1
 
@@ -124,7 +193,7 @@ func (s *sys) NumOps() int {
 		// (a cwd with an unclean spelling - MemFile.Chdir keeps "/a/b/.." as given
 		// to Open - is one more state of the main systems, not of these)
 		c, r := s.base.CurDir(), s.ref.CurDir()
-		if s.outLinks || s.roBase || s.user || c == basePath || c != path.Clean(c) || r != path.Clean(r) {
+		if s.outLinks || s.roBase || s.user || c == wBase || c != path.Clean(c) || r != path.Clean(r) {
 			return 0
 		}
 	}
@@ -154,9 +223,20 @@ func newFS(name string, dirs []avfs.DirInfo, idm avfs.IdentityMgr) hooked {
 // populate creates B's content below root ("" for the reference) with the same
 // calls on both sides. Directory "a" exists already: it is the one system
 // directory given to the constructor, so that neither tree holds anything else.
-func populate(v hooked, root string, links [][2]string) error {
+func populate(v hooked, root string, links [][2]string, nested string) error {
 	if err := v.SetUMask(0o022); err != nil {
 		return err
+	}
+
+	// the text of the base path once more, below B (below the reference's root)
+	if nested != "" {
+		if err := v.MkdirAll(root+nested, 0o755); err != nil {
+			return err
+		}
+
+		if err := v.WriteFile(root+nested+"/f", []byte("NF"), 0o644); err != nil {
+			return err
+		}
 	}
 
 	if err := v.WriteFile(root+"/f", []byte("F"), 0o644); err != nil {
@@ -245,19 +325,24 @@ func (s *sys) Reset() error {
 			idmB, idmR = memidm.New(), memidm.New()
 		}
 
-		s.base = newFS(s.fsName, []avfs.DirInfo{{Path: basePath + "/a", Perm: 0o755}}, idmB)
+		s.base = newFS(s.fsName, []avfs.DirInfo{{Path: wBase + "/a", Perm: 0o755}}, idmB)
 		s.ref = newFS(s.fsName, []avfs.DirInfo{{Path: "/a", Perm: 0o755}}, idmR)
 
-		if err = populate(s.base, basePath, s.worldLinks()); err != nil {
+		nested := ""
+		if s.named {
+			nested = spell(nestedDir)
+		}
+
+		if err = populate(s.base, wBase, s.worldLinks(), nested); err != nil {
 			return
 		}
 
-		if err = populate(s.ref, "", s.worldLinks()); err != nil {
+		if err = populate(s.ref, "", s.worldLinks(), nested); err != nil {
 			return
 		}
 
 		if s.user {
-			if err = populateUser(s.base, basePath); err != nil {
+			if err = populateUser(s.base, wBase); err != nil {
 				return
 			}
 
@@ -276,17 +361,17 @@ func (s *sys) Reset() error {
 
 		// a sibling of B whose name has B's name as a prefix (/top/bb against
 		// /top/b) with a subdirectory and a file, and an unrelated directory
-		for _, d := range []string{siblingPath, siblingSub, unrelated} {
+		for _, d := range []string{wSibling, wSiblingSub, unrelated} {
 			if err = s.base.Mkdir(d, 0o755); err != nil {
 				return
 			}
 		}
 
-		if err = s.base.WriteFile(siblingPath+"/f", []byte("BBF"), 0o600); err != nil {
+		if err = s.base.WriteFile(wSibling+"/f", []byte("BBF"), 0o600); err != nil {
 			return
 		}
 
-		for _, d := range []string{"/top", basePath} {
+		for _, d := range []string{"/top", wBase} {
 			if err = s.base.Chmod(d, 0o755); err != nil {
 				return
 			}
@@ -358,7 +443,7 @@ func (s *sys) Reset() error {
 	bd := s.base.VerifDump()
 	s.baseDump = bd
 	s.outside = s.outsideSnap(bd)
-	s.bDump = s.treeLines(s.base, bd, basePath)
+	s.bDump = s.treeLines(s.base, bd, wBase)
 
 	refDump := s.ref.VerifDump()
 	rd := s.treeLines(s.ref, refDump, "")
@@ -366,7 +451,7 @@ func (s *sys) Reset() error {
 		return fmt.Errorf("setup of %s: B and the reference tree differ initially: %s", s.fsName, d)
 	}
 
-	if c := s.base.CurDir(); c != basePath || s.ref.CurDir() != "/" {
+	if c := s.base.CurDir(); c != wBase || s.ref.CurDir() != "/" {
 		return fmt.Errorf("setup of %s: initial cwd base=%q ref=%q", s.fsName, c, s.ref.CurDir())
 	}
 
@@ -448,7 +533,7 @@ func pathOf(line string) string {
 }
 
 func underB(p string) bool {
-	return p == basePath || strings.HasPrefix(p, basePath+"/")
+	return p == wBase || strings.HasPrefix(p, wBase+"/")
 }
 
 // mtimeClass: T0 (set by the setup), T0+7s (set by the Chtimes of the alphabet), other.
@@ -672,9 +757,9 @@ func reach(baseCwd, p string, baseDump []string) string {
 
 	switch {
 	case p == "" || p == "/":
-		bp = basePath
+		bp = wBase
 	case strings.HasPrefix(p, "/"):
-		bp = basePath + p
+		bp = wBase + p
 	default:
 		bp = baseCwd + "/" + p
 	}
@@ -728,7 +813,7 @@ func normPath(vcwd, p string) string {
 // "base-prefixed" (/top/b), "base-parent-prefixed" (/top) or "".
 func basePrefix(n string) string {
 	switch {
-	case n == basePath || strings.HasPrefix(n, basePath+"/"):
+	case n == wBase || strings.HasPrefix(n, wBase+"/"):
 		return "base-prefixed"
 	case n == "/top" || strings.HasPrefix(n, "/top/"):
 		return "base-parent-prefixed"
@@ -759,7 +844,7 @@ func valClasses(call, want, got string) (string, string) {
 		gn, gr, _ := strings.Cut(got, " ")
 
 		if wr == gr && wn != gn {
-			return "name=" + wn, "name=" + gn
+			return "name=" + unspell(wn), "name=" + unspell(gn)
 		}
 
 		return "info", "other-info"
@@ -782,9 +867,12 @@ func valClasses(call, want, got string) (string, string) {
 // ---- the step ----
 
 type detail struct {
-	Want  result   `json:"want_reference"`
-	Got   result   `json:"got_basepathfs"`
-	Diffs []string `json:"diffs"`
+	// Spelled: the operation with its operands as the world of a variant
+	// name:<class> spells them (the replay names it in the alphabet's spelling).
+	Spelled string   `json:"op_as_spelled,omitempty"`
+	Want    result   `json:"want_reference"`
+	Got     result   `json:"got_basepathfs"`
+	Diffs   []string `json:"diffs"`
 }
 
 func (s *sys) Step(op int) bfs.StepResult {
@@ -795,11 +883,14 @@ func (s *sys) Step(op int) bfs.StepResult {
 		return bfs.StepResult{Key: s.lastKey, Outcome: "not-applicable-at-this-level"}
 	}
 
-	if o.Links && s.fsName != "MemFS" || o.User && !s.user {
-		// no symbolic links in this world, not the world of the variant user:
-		// the names mean nothing
+	if o.Links && s.fsName != "MemFS" || o.User && !s.user || o.Names && !s.named {
+		// no symbolic links in this world, not the world of the variant user, no
+		// nested copy of the base path: the names mean nothing
 		return bfs.StepResult{Key: s.lastKey, Outcome: "no-links-in-this-world"}
 	}
+
+	// the operands as this world spells them (variants name:<class>)
+	o.A, o.B, o.Dir = spell(o.A), spell(o.B), spell(o.Dir)
 
 	s.fromKey = s.lastKey
 
@@ -1134,7 +1225,7 @@ compare:
 		mk(o.Call, "outside-changed", "unchanged", changeClass(s.outside, outsideAfter), "base outside B before/after: "+d)
 	}
 
-	bAfter := s.treeLines(s.base, baseAfter, basePath)
+	bAfter := s.treeLines(s.base, baseAfter, wBase)
 	rAfter := s.treeLines(s.ref, refAfter, "")
 	treeDiff := fsx.DiffLines(rAfter, bAfter)
 
@@ -1161,8 +1252,8 @@ compare:
 		// its later answers are meaningless. Nothing to demand; not expanded.
 		note(o.Call, "ref-defect", "relative-cwd", "n/a", fmt.Sprintf("reference cwd became the relative string %q", rawV))
 	}
-	semantic := underB(newB) && path.Clean("/"+strings.TrimPrefix(newB, basePath)) == newV
-	presented := strings.HasPrefix(rawB, basePath) && path.Clean("/"+strings.TrimPrefix(rawB, basePath)) == newV
+	semantic := underB(newB) && path.Clean("/"+strings.TrimPrefix(newB, wBase)) == newV
+	presented := strings.HasPrefix(rawB, wBase) && path.Clean("/"+strings.TrimPrefix(rawB, wBase)) == newV
 
 	// The base's cwd may be outside B only where a call on the base has put it
 	// (this step's BaseChdir if it succeeded, else where it was before the
@@ -1258,7 +1349,12 @@ func (s *sys) finish(o opT, pc, bcc string, want, got result, viols []bfs.Viol, 
 	viols = kept
 
 	if fresh {
-		b, _ := json.Marshal(detail{Want: want, Got: got, Diffs: diffs})
+		d := detail{Want: want, Got: got, Diffs: diffs}
+		if wBaseName != defaultName {
+			d.Spelled = o.String() + " with B=" + wBase
+		}
+
+		b, _ := json.Marshal(d)
 		for i := range viols {
 			viols[i].Detail = string(b)
 		}
@@ -1323,7 +1419,7 @@ func (s *sys) answersFromOutside(o opT, bcwd string, i int, g sub) bool {
 	case bp == "" || bp == "/":
 		return false
 	case strings.HasPrefix(bp, "/"):
-		bp = basePath + bp
+		bp = wBase + bp
 	default:
 		bp = bcwd + "/" + bp
 	}
@@ -1361,13 +1457,13 @@ func (s *sys) answersFromOutside(o opT, bcwd string, i int, g sub) bool {
 func (s *sys) throughLink(o opT, bcwd string) (real string, out bool) {
 	from := bcwd
 	if !underB(from) {
-		from = basePath
+		from = wBase
 	}
 
-	v, _, _ := vResolve("/"+strings.TrimPrefix(from, basePath), o.A)
+	v, _, _ := vResolve("/"+strings.TrimPrefix(from, wBase), o.A)
 
 	_, _ = fsx.Guard(func() {
-		r, err := s.base.EvalSymlinks(path.Clean(basePath + v))
+		r, err := s.base.EvalSymlinks(path.Clean(wBase + v))
 		if err == nil {
 			real, out = r, !underB(r)
 		}
@@ -1378,7 +1474,7 @@ func (s *sys) throughLink(o opT, bcwd string) (real string, out bool) {
 
 // ---- operations made through a view returned by Sub ----
 
-func viewRoot(dir string) string { return path.Clean(basePath + "/" + dir) }
+func viewRoot(dir string) string { return path.Clean(wBase + "/" + dir) }
 
 func dumpHas(dump []string, bp string) bool {
 	for _, l := range dump {
@@ -1686,7 +1782,7 @@ func refRootInvolved(vcwd string, o opT) bool {
 	case "Glob":
 		segs := strings.Split(o.A, "/")
 		for i, sgm := range segs {
-			if strings.ContainsAny(sgm, "*?[") {
+			if strings.ContainsAny(sgm, "*?[\\") {
 				dir := strings.Join(segs[:i], "/")
 
 				switch {
